@@ -13,6 +13,8 @@ def stream (a : Array Float) (i : Nat) : Float := a[i]!
 
 /-
 `C07 hi      <N> <r0> <delta> <L0> <l0> <g…(2N²)>`          ft_phase_screen (mirror model: shifts, ifft2, real part)
+`C07 hifft   <N> <r0> <delta> <L0> <l0> <g…(2N²)>`          ft_phase_screen(FFT=<inverse transform>): the other shift pair
+`C07 shfft   <N> <r0> <delta> <L0> <l0> <g…(2N²+54)>`       ft_sh_phase_screen(FFT=<inverse transform>)
 `C07 hilin   <N> <r0> <delta> <L0> <l0> <g…(2N²)>`          the explicit real-linear form the theorems go through
 `C07 sh      <0|1> <N> <r0> <delta> <L0> <l0> <g…>`         ft_sh_phase_screen: 0 = as coded (one generator, 2N²+54 draws);
                                                             1 = the PINNED int-seed behaviour (stream re-read from 0,
@@ -22,6 +24,12 @@ def stream (a : Array Float) (i : Nat) : Float := a[i]!
 -/
 def handle (args : List String) : Option String :=
   match args with
+  | "shfft" :: ns :: rest => do
+      let n ← ns.toNat?
+      let a ← parseFloats? rest
+      if n = 0 ∨ a.size ≠ 4 + 2*n*n + 54 then none else
+      let g := stream (a.extract 4 a.size)
+      some (outGrid n (shScreenFFTStream CF n a[0]! a[1]! a[2]! a[3]! g))
   | "sh" :: sh :: ns :: rest => do
       let shared ← (match sh with | "0" => some false | "1" => some true | _ => none)
       let n ← ns.toNat?
@@ -41,6 +49,8 @@ def handle (args : List String) : Option String :=
       match op with
       | "hi" => if a.size ≠ 4 + 2*n*n then none else
           some (outGrid n (ftScreenStream CF n r0 delta L0 l0 g))
+      | "hifft" => if a.size ≠ 4 + 2*n*n then none else
+          some (outGrid n (ftScreenFFTStream CF n r0 delta L0 l0 g))
       | "hilin" => if a.size ≠ 4 + 2*n*n then none else
           some (outGrid n (ftScreenLin n r0 delta L0 l0 (hiA n g) (hiB n g)))
       | "lolin" => if a.size ≠ 4 + 54 then none else
